@@ -3,12 +3,12 @@ CONSTANTS
   Nil = Nil
   Floor = 1
   BlockSecs = 1
-  MaxB = 2
+  MaxB = 3
   MaxEv = 3
-  MaxPerBlock = 2
+  MaxPerBlock = 1
   MaxH = 2
   MaxClock = 1
-  PageSize = 2
+  PageSize = 1
   MaxReorg = 1
   MaxFail = 0
   MaxReq = 0
